@@ -106,10 +106,10 @@ calls may fail too) with every node that was loadable before still loadable, sam
 does not cover is exactly what the findings list: the store COUNT (C01-F1), handles and blobs of nodes that did not
 exist before (C11), and leftover reservations in inactive slots (C07). -/
 theorem C01_failed_phase1_keeps_every_node (s0 : State) (w : WS) (fresh0 : List (UUID × UUID)) (pre : Pre s0 w fresh0)
-    (fault : Option Fault) (tid : Tid) (n : Nat) (r1 : Run)
-    (hf : phase1 w n { s := s0, tid := tid, fault := fault, fresh := fresh0 } = .error r1) :
+    (fault : Option Fault) {cs0 : Step} (tid : Tid) (n : Nat) (r1 : Run)
+    (hf : phase1 w n { s := s0, tid := tid, fault := fault, fresh := fresh0, cs := cs0 } = .error r1) :
     ∀ lid, (s0.view lid).isSome →
-      (commit w n { s := s0, tid := tid, fault := fault, fresh := fresh0 }).2.s.view lid = s0.view lid :=
+      (commit w n { s := s0, tid := tid, fault := fault, fresh := fresh0, cs := cs0 }).2.s.view lid = s0.view lid :=
   commit_phase1_failure_keeps_views pre fault tid n r1 hf
 
 /-- **The error half of C01 at node level, for every fault**: whenever `Commit` returns an error — the failure may
@@ -119,11 +119,11 @@ held, the priority log exists, and the run's one fault being spent the restoring
 may hit the error handling itself in all but the last case — every node that was loadable before is unchanged. What
 the full statement `Statement_C01_err` says beyond this is the store count, which is finding C01-F1. -/
 theorem C01_failed_commit_keeps_every_node (s0 : State) (w : WS) (fresh0 : List (UUID × UUID))
-    (pre : Pre s0 w fresh0) (pre2 : Pre2 s0 w fresh0) (fault : Option Fault) (tid : Tid) (n : Nat)
-    (herr : (commit w n { s := s0, tid := tid, fault := fault, fresh := fresh0 }).1 = .err) :
+    (pre : Pre s0 w fresh0) (pre2 : Pre2 s0 w fresh0) (fault : Option Fault) {cs0 : Step} (tid : Tid) (n : Nat)
+    (herr : (commit w n { s := s0, tid := tid, fault := fault, fresh := fresh0, cs := cs0 }).1 = .err) :
     ∀ lid, (s0.view lid).isSome →
-      (commit w n { s := s0, tid := tid, fault := fault, fresh := fresh0 }).2.s.view lid = s0.view lid := by
-  cases h1 : phase1 w n { s := s0, tid := tid, fault := fault, fresh := fresh0 } with
+      (commit w n { s := s0, tid := tid, fault := fault, fresh := fresh0, cs := cs0 }).2.s.view lid = s0.view lid := by
+  cases h1 : phase1 w n { s := s0, tid := tid, fault := fault, fresh := fresh0, cs := cs0 } with
   | error r1 => exact commit_phase1_failure_keeps_views pre fault tid n r1 h1
   | ok p =>
     obtain ⟨u, r1⟩ := p
@@ -148,9 +148,9 @@ read; (2) each of them now shows the staged blob at version + 1; (3) every node 
 neither updated nor removed by this transaction is unchanged. `Pre2` states the write set is well formed (no node
 updated twice or both updated and removed) and that physical ids are not shared between handles. -/
 theorem C01_ok_installs_every_update (s0 : State) (w : WS) (fresh0 : List (UUID × UUID)) (pre : Pre s0 w fresh0)
-    (pre2 : Pre2 s0 w fresh0) (fault : Option Fault) (tid : Tid) (n : Nat) (r2 : Run)
-    (hok : commit w n { s := s0, tid := tid, fault := fault, fresh := fresh0 } = (.ok, r2)) :
-    ∃ r1, phase1 w n { s := s0, tid := tid, fault := fault, fresh := fresh0 } = .ok ((), r1) ∧
+    (pre2 : Pre2 s0 w fresh0) (fault : Option Fault) {cs0 : Step} (tid : Tid) (n : Nat) (r2 : Run)
+    (hok : commit w n { s := s0, tid := tid, fault := fault, fresh := fresh0, cs := cs0 } = (.ok, r2)) :
+    ∃ r1, phase1 w n { s := s0, tid := tid, fault := fault, fresh := fresh0, cs := cs0 } = .ok ((), r1) ∧
       (w.hasTracked = true → r1.reserved.map (fun h => (h.lid, h.version)) = w.updated) ∧
       (∀ h ∈ r1.reserved, h.inactive ≠ 0 → r2.s.view h.lid = some (h.inactive, h.version + 1)) ∧
       (∀ lid, (s0.view lid).isSome → (∀ h ∈ r1.reserved, h.lid ≠ lid) → (∀ g ∈ r1.removedH, g.lid ≠ lid) →
@@ -160,8 +160,8 @@ theorem C01_ok_installs_every_update (s0 : State) (w : WS) (fresh0 : List (UUID 
 /-- the same, read per node of the write set: an updated node `(lid, v)` of a successful commit ends at version
 `v + 1` under a blob id the transaction staged (when the id generator did not hand out the nil id) -/
 theorem C01_ok_every_updated_node_advances (s0 : State) (w : WS) (fresh0 : List (UUID × UUID)) (pre : Pre s0 w fresh0)
-    (pre2 : Pre2 s0 w fresh0) (fault : Option Fault) (tid : Tid) (n : Nat) (r2 : Run) (hT : w.hasTracked = true)
-    (hok : commit w n { s := s0, tid := tid, fault := fault, fresh := fresh0 } = (.ok, r2))
+    (pre2 : Pre2 s0 w fresh0) (fault : Option Fault) {cs0 : Step} (tid : Tid) (n : Nat) (r2 : Run) (hT : w.hasTracked = true)
+    (hok : commit w n { s := s0, tid := tid, fault := fault, fresh := fresh0, cs := cs0 } = (.ok, r2))
     (x : UUID × Int) (hx : x ∈ w.updated) :
     ∃ newId, newId = 0 ∨ r2.s.view x.1 = some (newId, x.2 + 1) := by
   obtain ⟨r1, _, hcov, hnew, _⟩ := commit_ok_installs pre pre2 fault tid n r2 hok
@@ -176,9 +176,9 @@ theorem C01_ok_every_updated_node_advances (s0 : State) (w : WS) (fresh0 : List 
 version 0 and every node added by a split at version 1, each under the blob written for it — nothing in phase 2 or in
 the cleanup touches them (`Pre3`: the new ids are distinct and no obsolete value blob carries one of them). -/
 theorem C01_ok_new_nodes_visible (s0 : State) (w : WS) (fresh0 : List (UUID × UUID)) (pre : Pre s0 w fresh0)
-    (pre2 : Pre2 s0 w fresh0) (p3 : Pre3 w) (fault : Option Fault) (tid : Tid) (n : Nat) (r2 : Run)
+    (pre2 : Pre2 s0 w fresh0) (p3 : Pre3 w) (fault : Option Fault) {cs0 : Step} (tid : Tid) (n : Nat) (r2 : Run)
     (ht : w.hasTracked = true)
-    (hok : commit w n { s := s0, tid := tid, fault := fault, fresh := fresh0 } = (.ok, r2)) :
+    (hok : commit w n { s := s0, tid := tid, fault := fault, fresh := fresh0, cs := cs0 } = (.ok, r2)) :
     (∀ i ∈ w.rootIds, r2.s.view i = some (i, 0)) ∧ (∀ i ∈ w.addedIds, r2.s.view i = some (i, 1)) :=
   commit_ok_new_nodes pre pre2 p3 fault tid n r2 ht hok
 
@@ -189,8 +189,8 @@ returned ok (under any tolerated fault) the count of every store is its old coun
 `StoreRepository.Update` of `commitStores` is the only thing on the success path that touches a count. (A write set
 without tracked items commits nothing: the counts stay.) -/
 theorem C01_ok_applies_count_deltas (s0 : State) (w : WS) (fresh0 : List (UUID × UUID)) (fault : Option Fault)
-    (tid : Tid) (n : Nat) (r2 : Run)
-    (hok : commit w n { s := s0, tid := tid, fault := fault, fresh := fresh0 } = (.ok, r2)) :
+    {cs0 : Step} (tid : Tid) (n : Nat) (r2 : Run)
+    (hok : commit w n { s := s0, tid := tid, fault := fault, fresh := fresh0, cs := cs0 } = (.ok, r2)) :
     r2.s.cnt = if w.hasTracked then w.countsAfter s0 else s0.cnt :=
   commit_ok_counts fault tid n r2 hok
 
